@@ -15,6 +15,7 @@
 package ggql
 
 import (
+	"math"
 	"strconv"
 )
 
@@ -41,6 +42,9 @@ func (*intScalar) CoerceIn(v interface{}) (interface{}, error) {
 	case nil:
 		// remains nil
 	case int:
+		if tv < math.MinInt32 || math.MaxInt32 < tv {
+			return nil, newCoerceErr(v, "Int")
+		}
 		v = int32(tv)
 	case int8:
 		v = int32(tv)
@@ -49,16 +53,28 @@ func (*intScalar) CoerceIn(v interface{}) (interface{}, error) {
 	case int32:
 		// ok as is
 	case int64:
+		if tv < math.MinInt32 || math.MaxInt32 < tv {
+			return nil, newCoerceErr(v, "Int")
+		}
 		v = int32(tv)
 	case uint:
+		if math.MaxInt32 < tv {
+			return nil, newCoerceErr(v, "Int")
+		}
 		v = int32(tv)
 	case uint8:
 		v = int32(tv)
 	case uint16:
 		v = int32(tv)
 	case uint32:
+		if math.MaxInt32 < tv {
+			return nil, newCoerceErr(v, "Int")
+		}
 		v = int32(tv)
 	case uint64:
+		if math.MaxInt32 < tv {
+			return nil, newCoerceErr(v, "Int")
+		}
 		v = int32(tv)
 	case float64:
 		// Needed for nested types since the go JSON parser always emits float64 even if an integer.
